@@ -76,10 +76,11 @@ type State struct {
 	defers []deferred
 	ghostCalled map[string]Term // call-history flags: name -> Bool term
 	callRes     map[string]Val  // results of the calls executed so far, by short callee name (#k = k-th call site)
+	epoch       string          // non-empty once a call with arbitrary effects has happened on the way here
 }
 
 func (s *State) clone() *State {
-	n := &State{cells: make(map[*Cell]Val, len(s.cells)), heaps: make(map[string]Term, len(s.heaps)), alloc: s.alloc}
+	n := &State{cells: make(map[*Cell]Val, len(s.cells)), heaps: make(map[string]Term, len(s.heaps)), alloc: s.alloc, epoch: s.epoch}
 	for k, v := range s.cells {
 		n.cells[k] = v
 	}
@@ -160,6 +161,8 @@ type Unit struct {
 	scopeBlk   *ssa.BasicBlock
 	bytesCache map[string]Term
 	groundHints []string
+	epochHeaps  map[string]Term
+	lastSpecErr string
 	quants      []*quantAssumption
 	boundNow   map[string]bool
 	retReach []Term
@@ -470,21 +473,44 @@ func (u *Unit) heap(st *State, name, sort string) Term {
 	if t, ok := st.heaps[name]; ok {
 		return t
 	}
-	if t, ok := u.heapInit[name]; ok {
+	if _, ok := u.heapInit[name]; !ok {
+		// first use anywhere: the initial version is an unconstrained input of the function
+		n := "H0_" + mangle(name)
+		if len(n) > 90 {
+			n = fmt.Sprintf("%s_%d", n[:80], len(u.heapSort))
+		}
+		u.decls = append(u.decls, fmt.Sprintf("(declare-const %s %s)", n, sort))
+		u.heapSort[name] = sort
+		u.heapInit[name] = Term{n, sort}
+	}
+	if st.epoch != "" {
+		// the state has been through a call with arbitrary effects since entry: a heap that is
+		// looked at for the first time now is NOT the entry version
+		key := st.epoch + "|" + name
+		t, ok := u.epochHeaps[key]
+		if !ok {
+			n := fmt.Sprintf("HE_%s_%s", st.epoch, mangle(name))
+			if len(n) > 90 {
+				n = fmt.Sprintf("%s_%d", n[:80], len(u.epochHeaps))
+			}
+			u.decls = append(u.decls, fmt.Sprintf("(declare-const %s %s)", n, sort))
+			t = Term{n, sort}
+			if u.epochHeaps == nil {
+				u.epochHeaps = map[string]Term{}
+			}
+			u.epochHeaps[key] = t
+		}
 		st.heaps[name] = t
 		return t
 	}
-	// first use anywhere: the initial version is an unconstrained input of the function
-	n := "H0_" + mangle(name)
-	if len(n) > 90 {
-		n = fmt.Sprintf("%s_%d", n[:80], len(u.heapSort))
-	}
-	u.decls = append(u.decls, fmt.Sprintf("(declare-const %s %s)", n, sort))
-	t := Term{n, sort}
-	u.heapSort[name] = sort
-	u.heapInit[name] = t
+	t := u.heapInit[name]
 	st.heaps[name] = t
 	return t
+}
+
+// heapNow is heap() for a heap whose sort is already known.
+func (u *Unit) heapNow(st *State, name string) Term {
+	return u.heap(st, name, u.heapSort[name])
 }
 
 func (u *Unit) fieldHeapName(skey string, st *types.Struct, i int) string {
@@ -519,6 +545,7 @@ func (u *Unit) newRef(st *State) Term {
 // havocHeaps replaces the listed heaps (all known heaps when names == nil) by unknown values.
 func (u *Unit) havocHeaps(st *State, names []string, why string) {
 	if names == nil {
+		st.epoch = u.sym("ep")
 		for n := range u.heapSort {
 			names = append(names, n)
 		}
